@@ -55,7 +55,7 @@ TermEntries(T, shift) ==
 ReprEqual(S, T, depth, omit) ==
   LET E == ReprEntries(S, depth, omit)
       n == Len(E)
-      c == ClsUpTo(E \o TermEntries(T, n), FALSE, n + Len(T.nodes)).cls
+      c == ClsUpToX(E \o TermEntries(T, n), FALSE, FALSE, n + Len(T.nodes)).cls
   IN c[RPos(S.root, 0, depth)] = c[n + T.root]
 
 TermOK(T) == \A i \in DOMAIN T.nodes : \A q \in DOMAIN T.nodes[i].args : T.nodes[i].args[q].to < i
